@@ -125,6 +125,7 @@ impl CoreApi for CachedEnforcer {
     #[inline]
     fn add_function(&mut self, fname: &str, f: OperatorFunction) {
         self.enforcer.add_function(fname, f);
+        self.cache.clear();
     }
 
     #[inline]
@@ -174,16 +175,20 @@ impl CoreApi for CachedEnforcer {
         &mut self,
         rm: Arc<RwLock<dyn RoleManager>>,
     ) -> Result<()> {
+        // cached decisions were computed with the old component
+        self.cache.clear();
         self.enforcer.set_role_manager(rm)
     }
 
     #[inline]
     async fn set_model<M: TryIntoModel>(&mut self, m: M) -> Result<()> {
+        self.cache.clear();
         self.enforcer.set_model(m).await
     }
 
     #[inline]
     async fn set_adapter<A: TryIntoAdapter>(&mut self, a: A) -> Result<()> {
+        self.cache.clear();
         self.enforcer.set_adapter(a).await
     }
 
@@ -202,6 +207,7 @@ impl CoreApi for CachedEnforcer {
     #[inline]
     fn set_effector(&mut self, e: Box<dyn Effector>) {
         self.enforcer.set_effector(e);
+        self.cache.clear();
     }
 
     fn enforce<ARGS: EnforceArgs>(&self, rvals: ARGS) -> Result<bool> {
@@ -309,6 +315,7 @@ impl CoreApi for CachedEnforcer {
 
     #[inline]
     fn build_role_links(&mut self) -> Result<()> {
+        self.cache.clear();
         self.enforcer.build_role_links()
     }
 
@@ -320,11 +327,13 @@ impl CoreApi for CachedEnforcer {
 
     #[inline]
     async fn load_policy(&mut self) -> Result<()> {
+        self.cache.clear();
         self.enforcer.load_policy().await
     }
 
     #[inline]
     async fn load_filtered_policy<'a>(&mut self, f: Filter<'a>) -> Result<()> {
+        self.cache.clear();
         self.enforcer.load_filtered_policy(f).await
     }
 
@@ -345,6 +354,7 @@ impl CoreApi for CachedEnforcer {
 
     #[inline]
     async fn clear_policy(&mut self) -> Result<()> {
+        self.cache.clear();
         self.enforcer.clear_policy().await
     }
 
@@ -357,6 +367,7 @@ impl CoreApi for CachedEnforcer {
     #[inline]
     fn enable_enforce(&mut self, enabled: bool) {
         self.enforcer.enable_enforce(enabled);
+        self.cache.clear();
     }
 
     #[inline]
